@@ -249,6 +249,12 @@ fn analyze_token_spacing(ctx: &FormatContext, spacing: &mut SpacingModel, token:
         }
         ch if ch.is_assign_op() => {
             apply_space_rule(spacing, syntax_id, space_around_assign(ctx.config));
+            // `local x <const>=1` would be lexed as `>=`: keep the space after an attribute
+            if get_prev_sibling_token_without_space(token)
+                .is_some_and(|prev| prev.kind().to_token() == LuaTokenKind::TkGt)
+            {
+                spacing.add_token_left_expected(syntax_id, TokenSpacingExpected::Space(1));
+            }
         }
         _ => {}
     }
